@@ -13,6 +13,7 @@
 ##############################################################################
 """Schema loader utility."""
 
+import http.client
 import os.path
 import re
 import sys
@@ -211,6 +212,11 @@ class BaseLoader(ABC):
                 # we generally don't want to pass it along to the user.
                 self._raise_open_error(url, e.reason)  # pragma: no cover
             except OSError as e:
+                self._raise_open_error(url, str(e))
+            except (ValueError, http.client.HTTPException) as e:
+                # urllib and http.client refuse some URLs before any I/O
+                # (non-numeric port, control characters, host names that
+                # cannot be encoded, malformed IPv6 literals)
                 self._raise_open_error(url, str(e))
 
             try:
